@@ -3,6 +3,8 @@ import OxiVerif.Spec.C07Codecs
 import OxiVerif.Lemmas.C07
 import OxiVerif.Lemmas.C07A85
 import OxiVerif.Lemmas.C07Chain
+import OxiVerif.Lemmas.C07Flate
+import OxiVerif.Model.C07Ccitt
 /-!
 C07 — every supported stream filter decodes exactly what a reference encoder encoded.
 
@@ -157,10 +159,106 @@ theorem C07_witness_tiff_predictor_undecoded :
     applyPredictor (tiffEnc 3 1 8 [10, 20, 30]) 2 { predictor := .int 2, columns := .int 3 } ≠ .ok [10, 20, 30] := by
   decide
 
-/-! ## 6. Filter chains -/
-
 /-- a stage without an (integer) /Predictor: the post-processing of `apply_filter_with_params` is void -/
 def NoPredictor (p : Option Dict) : Prop := ∀ d, p = some d → d.predictor.asInt = none
+
+/-! ## 5b. FlateDecode
+
+The library delegates inflate to `flate2`; the model takes it as a parameter `E : Ext`.  Here `E` is
+instantiated with the Lean RFC 1950/1951 decoder `Inflate.zlibInflate` (Model/C07Inflate.lean), the
+same function the C07 driver runs and compares with flate2's answer on every Flate case. -/
+
+/-- the model with the Lean inflate plugged in (recovery strategies 2–8 stay outside) -/
+def inflateExt : Ext := ⟨fun x => .ok (Inflate.zlibInflate x), fun _ => .ext 1⟩
+
+theorem zlibStored_length_ge (block : Nat) (b : List Nat) : b.length ≤ (zlibStored block b).length := by
+  have hb : 1 ≤ max 1 (min block 65535) := by omega
+  have := Inflate.storedBlocks_length _ hb (b.length + 1) b (Nat.lt_succ_self _)
+  unfold zlibStored
+  simp only [List.length_append, List.length_cons, List.length_nil]
+  omega
+
+theorem tryStandardZlib_stored (block : Nat) (b : List Nat) (hL : b.length ≤ maxDecompressedSize) :
+    tryStandardZlib inflateExt (zlibStored block b) = .ok (some b) := by
+  unfold tryStandardZlib inflateExt
+  have h := Inflate.zlibInflate_zlibStored block b []
+  rw [List.append_nil] at h
+  simp only [h, Res.bind]
+  rw [if_neg (by omega)]
+  have hge := zlibStored_length_ge block b
+  have hratio : ratioOk (zlibStored block b).length b.length = true := by
+    unfold ratioOk
+    have : b.length / (zlibStored block b).length ≤ 1 := by
+      by_cases h0 : (zlibStored block b).length = 0
+      · rw [h0]; simp
+      · exact Nat.div_le_of_le_mul (by omega)
+    have : ¬ (b.length / (zlibStored block b).length > maxCompressionRatio) := by
+      unfold maxCompressionRatio; omega
+    simp [this]
+  rw [hratio]; rfl
+
+/- FULL: for every conforming deflate encoder `enc` (any mix of stored / fixed / dynamic Huffman
+   blocks, any match finder):  applyFilterWithParams E (enc b) .flate none = .ok b.
+   Proved here for the reference encoder with STORED blocks only (every block size 1…65535, every
+   byte string).  Missing: Huffman-coded blocks — real zlib output of flate2 at levels 0–9 is covered
+   by the correspondence run (Lean inflate = flate2's answer, model = implementation, result =
+   plaintext on every generated case), not by a theorem. -/
+theorem C07_flate_stored_roundtrip_partial (block : Nat) (b : List Nat) (p : Option Dict)
+    (hp : NoPredictor p) (hL : b.length ≤ maxDecompressedSize) :
+    applyFilterWithParams inflateExt (zlibStored block b) .flate p = .ok b := by
+  have hz := tryStandardZlib_stored block b hL
+  unfold applyFilterWithParams
+  cases p with
+  | none => simp only [decodeFlate, hz, Res.bind]
+  | some d =>
+    have := hp d rfl
+    simp only [this, Option.isSome_none, Bool.false_eq_true, if_false, decodeFlate, hz, Res.bind]
+
+example : applyFilterWithParams inflateExt (zlibStored 2 [5, 6, 7]) .flate none = .ok [5, 6, 7] :=
+  C07_flate_stored_roundtrip_partial 2 [5, 6, 7] none (fun _ h => by cases h) (by decide)
+
+/-- **Flate + PNG predictor**: stored-block zlib around PNG-filtered rows comes back as the image data,
+every /Predictor 10–15, geometry, per-row filter types, block size -/
+theorem C07_flate_png_roundtrip_partial (block pred columns colors bpc : Nat) (d : Dict)
+    (hpd : d.predictor = .int pred) (hp : 10 ≤ pred ∧ pred ≤ 15)
+    (hc : d.columns = .int columns) (hk : d.colors = .int colors) (hb : d.bpc = .int bpc)
+    (hpos : 0 < rowBytes columns colors bpc) (hfit : columns * colors * bpc + 7 < two64)
+    (types : List Nat) (ht : ∀ t ∈ types, t ≤ 4) (k : Nat) (data : List Nat)
+    (hl : data.length = k * rowBytes columns colors bpc) (hbytes : Bytes data)
+    (hL : (pngEnc (rowBytes columns colors bpc) (pngBpp colors bpc) types data).length ≤ maxDecompressedSize) :
+    applyFilterWithParams inflateExt
+      (zlibStored block (pngEnc (rowBytes columns colors bpc) (pngBpp colors bpc) types data)) .flate (some d)
+      = .ok data := by
+  have hz := tryStandardZlib_stored block _ hL
+  have hpr := C07_png_predictor_roundtrip pred columns colors bpc d hp hc hk hb hpos hfit types ht k data hl hbytes
+  have hu : asU32 (pred : Int) = pred := asU32_ofNat pred (by unfold two32; omega)
+  unfold applyFilterWithParams
+  simp only [hpd, PVal.asInt, Option.isSome_some, if_true, hz, Res.bind, hu, hpr]
+
+example : applyFilterWithParams inflateExt (zlibStored 4 (pngEnc 2 1 [2] [9, 9, 9, 9])) .flate
+    (some { predictor := .int 12, columns := .int 2, colors := .int 1, bpc := .int 8 }) = .ok [9, 9, 9, 9] :=
+  C07_flate_png_roundtrip_partial 4 12 2 1 8 _ rfl (by decide) rfl rfl rfl (by decide) (by decide) [2] (by decide) 2
+    [9, 9, 9, 9] (by decide) (by decide) (by decide)
+
+/-! ## 5c. CCITTFaxDecode -/
+
+/- FULL: ccittDecode K columns rows (ccittEncode K columns rows image) = image.
+   No reference CCITT encoder is written here, and none is needed to see that the statement is FALSE of
+   the code: for /K -1 the "decoder" (`Group4Decoder::decode`, modelled by `Ccitt.g4Decode`) returns
+   its input truncated or zero-padded to `ceil(columns/8) * rows` bytes, whatever it is.  Known
+   finding C07-F4 (hand-made T.6 vectors in the corpus, run against the real code). -/
+/-- T.6: two all-white rows of 8 pixels are `1` `1` (two V0 codes) + EOFB = `c0 04 00 40`; the image is
+`ff ff`.  The code returns `c0 04`. -/
+theorem C07_witness_ccitt_g4_is_a_stub :
+    Ccitt.g4Decode 8 2 [0xc0, 0x04, 0x00, 0x40] = [0xc0, 0x04] ∧
+    Ccitt.g4Decode 8 2 [0xc0, 0x04, 0x00, 0x40] ≠ [0xff, 0xff] ∧
+    ∀ data : List Nat, 2 ≤ data.length → Ccitt.g4Decode 8 2 data = data.take 2 := by
+  refine ⟨by decide, by decide, fun data h => ?_⟩
+  unfold Ccitt.g4Decode
+  simp only [Nat.reduceAdd, Nat.reduceDiv, Nat.reduceMul, Nat.reduceGT, if_true]
+  rw [if_pos (by omega)]
+
+/-! ## 6. Filter chains -/
 
 theorem applyFilter_noPredictor (E : Ext) (data : List Nat) (f : FName) (p : Option Dict) (hp : NoPredictor p)
     (hf : f = .hex ∨ f = .a85 ∨ f = .rl) (o : List Nat)
